@@ -127,19 +127,19 @@ class ExecutionContext:
                         case LinearIR.VariableAccessScope.FUNCTION_LOCAL:
                             localScope[ref] = localScope[instruction.Variable]
                 case LinearIR.OpCode.STORE:
+                    # Arrays and structures are values like everything else:
+                    # the variable gets its own copy, not a second name for
+                    # the object that was stored
+                    value = localScope[instruction.Store.Reference]
+                    if isinstance(value, (list, dict)):
+                        value = copy.deepcopy(value)
                     match instruction.Scope:
                         case LinearIR.VariableAccessScope.GLOBAL:
-                            self.__globalScope[instruction.Variable] = (
-                                localScope[instruction.Store.Reference]
-                            )
+                            self.__globalScope[instruction.Variable] = value
                         case LinearIR.VariableAccessScope.FUNCTION_ARGUMENT:
-                            args[instruction.Variable] = localScope[
-                                instruction.Store.Reference
-                            ]
+                            args[instruction.Variable] = value
                         case LinearIR.VariableAccessScope.FUNCTION_LOCAL:
-                            localScope[instruction.Variable] = localScope[
-                                instruction.Store.Reference
-                            ]
+                            localScope[instruction.Variable] = value
                 case (
                     LinearIR.OpCode.LOAD_ARRAY
                     | LinearIR.OpCode.VECTOR_GET
